@@ -37,7 +37,8 @@
           `circuit_eval_is_layers`): `circuit_unitary`, `circuit_dagger` for every well-typed circuit
           (`Circ.codFrom n c = some m`) over the gate set `unitaryGates` = GATES, rotations, Controlled(·),
           and all their daggers; rotations at EVERY integer phase index `n/8` (`n` even, any `n` for CU1);
-          kets/bras ≤ 4 bits, normalised scalars and `sqrt(z)` boxes (`z` non-real or ≥ 0) for the dagger; with
+          kets/bras ≤ 4 bits, normalised scalars, `sqrt(z)` boxes (`z` non-real or ≥ 0) and user-defined
+          0-qubit `QuantumGate`s (global phases, either dagger flag, `phase0_dagOK`) for the dagger; with
           kets the circuit is an isometry.
           Transport: `Cyc8.val : Cyc8 → ℚ(ζ₈)` is a homomorphism for the model's normalising
           operations and injective on normalised values (Proofs/Cyc8Ring.lean).
@@ -410,13 +411,35 @@ example : ∀ x ∈ c1, x.2.1.inDaggerSet := by
   simp only [c1, List.mem_cons, List.not_mem_nil, or_false] at hx
   rcases hx with rfl | rfl | rfl | rfl | rfl | rfl
   · exact .inr (.inr (.inr (.inl (List.mem_map.2 ⟨[true], by decide, rfl⟩))))
-  · exact .inr (.inr (.inr (.inr (.inr (.inr ⟨_, _, rfl, by decide, .inl (by decide)⟩)))))
+  · exact .inr (.inr (.inr (.inr (.inr (.inr (.inl ⟨_, _, rfl, by decide, .inl (by decide)⟩))))))
   · exact .inl (by simp [unitaryGates, unitaryBase, tableGates, named])
   · exact .inr (.inr (.inr (.inr (.inr (.inl ⟨_, rfl, by decide⟩)))))
-  · exact .inr (.inr (.inr (.inr (.inr (.inr ⟨_, _, rfl, by decide, .inl (by decide)⟩)))))
-  · exact .inr (.inr (.inr (.inr (.inr (.inr ⟨_, _, rfl, by decide, .inr (by decide)⟩)))))
+  · exact .inr (.inr (.inr (.inr (.inr (.inr (.inl ⟨_, _, rfl, by decide, .inl (by decide)⟩))))))
+  · exact .inr (.inr (.inr (.inr (.inr (.inr (.inl ⟨_, _, rfl, by decide, .inr (by decide)⟩))))))
 example : evalCirc 1 (Circ.dagger c1) = dagger (evalCirc 0 c1) ∧
     evalCirc 0 c1 = [[⟨1, 0, -3, 0, 0⟩, ⟨-1, 0, 3, 0, 0⟩]] := by decide
+/-- User-defined `QuantumGate`s on ZERO qubits (global phases) inside a circuit, at every kind of position:
+    `phase(ζ).dagger()` left of `X`, `phase(i)` between the layers on the right, `phase((1-3i)/2).dagger().dagger()`
+    in the middle of two wires.  Arity 0 is accepted by `evalCirc` (`1 ⊗ [[w]] ⊗ 1`), the daggered gate contributes
+    the CONJUGATE of its entry, and the circuit meets the hypotheses of `circuit_dagger`. -/
+def phZ : QGate := ⟨"phase", 0, [[Cyc8.zeta]], some false⟩
+def c2 : Circ := [(0, .q phZ.dagger, 1), (0, .q gX, 0), (1, .q ⟨"PI", 0, [[Cyc8.I]], some false⟩, 0),
+  (0, .ket [false], 1), (1, .q (QGate.dagger (QGate.dagger ⟨"PG", 0, [[⟨1, 0, -3, 0, 1⟩]], some false⟩)), 1)]
+example : Circ.codFrom 1 c2 = some 2 := by decide
+example : evalCirc 1 [(0, .q phZ.dagger, 1), (0, .q gX, 0)] = [[0, Cyc8.zeta.conj], [Cyc8.zeta.conj, 0]] ∧
+    evalCirc 1 [(0, .q phZ, 1), (0, .q gX, 0)] = [[0, Cyc8.zeta], [Cyc8.zeta, 0]] ∧
+    Cyc8.zeta.conj ≠ Cyc8.zeta := by decide
+example : ∀ x ∈ c2, x.2.1.inDaggerSet := by
+  intro x hx
+  simp only [c2, List.mem_cons, List.not_mem_nil, or_false] at hx
+  rcases hx with rfl | rfl | rfl | rfl | rfl
+  · exact .inr (.inr (.inr (.inr (.inr (.inr (.inr ⟨"phase", Cyc8.zeta, true, rfl, by decide⟩))))))
+  · exact .inl (by simp [unitaryGates, unitaryBase, tableGates, named])
+  · exact .inr (.inr (.inr (.inr (.inr (.inr (.inr ⟨"PI", Cyc8.I, false, rfl, by decide⟩))))))
+  · exact .inr (.inr (.inr (.inl (List.mem_map.2 ⟨[false], by decide, rfl⟩))))
+  · exact .inr (.inr (.inr (.inr (.inr (.inr (.inr ⟨"PG", ⟨1, 0, -3, 0, 1⟩, false, rfl, by decide⟩))))))
+example : evalCirc 2 (Circ.dagger c2) = dagger (evalCirc 1 c2) ∧ evalCirc 1 c2 ≠ evalCirc 1 (c2.drop 1) := by
+  decide
 example : evalModes false true [false, true, false] = [true, false, true, false] ∧
     sumModes false [false, false] = some [false, false] ∧ sumModes false [false, true] = some [true, true] := by
   decide
